@@ -201,6 +201,8 @@ func init() {
 		}
 		Letters["headers[bsv-split,29x-unknown]"] = Frame(wire.CmdHeaders, HeadersPayload(list...))
 	}
+	Letters["headers[block2]"] = Frame(wire.CmdHeaders, HeadersPayload(Block2))
+	Letters["headers[block2,unknown]"] = Frame(wire.CmdHeaders, HeadersPayload(Block2, UnknownHeader))
 	Letters["headers[unknown]+unframed[bsv-split]"] = append(append([]byte{}, Frame(wire.CmdHeaders, HeadersPayload(UnknownHeader))...), HeadersPayload(BSVSplit)...)
 	add("notfound", Frame(wire.CmdNotFound, invPayload(wire.InvTypeTx, *tx0.TxHash())))
 	add("getheaders", Msg(wire.NewMsgGetHeaders()))
